@@ -40,6 +40,8 @@ def group_cases(draw):
     u = draw(gen.complex_array((N, N), kind=draw(st.sampled_from(["dense", "dense", "sparse"]))))
     d1 = draw(gen.logfloat(1e-4, 1e-1))
     wvl = draw(gen.logfloat(0.3e-6, 10e-6))
+    if draw(st.integers(0, 4)) == 0:
+        d1 = wvl * draw(gen.logfloat(0.05, 2.0))              # sampling finer than the wavelength is still a valid sampling
     steps = draw(st.lists(gen.signed_logfloat(1e-3, 1e2), min_size=1, max_size=6))
     cut = draw(st.floats(0.05, 0.95))
     return {"u": u, "d1": d1, "wvl": wvl, "steps": steps, "cut": cut, "m": draw(st.floats(0.3, 3.0)),
@@ -52,7 +54,7 @@ def group_body(ctx, case):
     zs = [a * d1 * d1 / wvl for a in case["steps"]]
     total = math.fsum(zs)
     mixed = any(z > 0 for z in zs) and any(z < 0 for z in zs)
-    ctx.case(case, nontrivial=len(zs) >= 3 and mixed, classes=["steps%d" % len(zs), "mixed" if mixed else "one_sign", "N_odd" if u.shape[0] % 2 else "N_even"])
+    ctx.case(case, nontrivial=len(zs) >= 3 and mixed, classes=["steps%d" % len(zs), "mixed" if mixed else "one_sign", "N_odd" if u.shape[0] % 2 else "N_even", "sub_wavelength_sampling" if d1 < wvl else "coarse_sampling"])
     nu = nrm(u)
     P = lambda f, z: o.angularSpectrum(f, wvl, d1, d1, z)
     # identity
